@@ -196,7 +196,7 @@ theorem firstStrong_outside (i : BidiClass) (hi : isIsoInit i = true) (w1 w2 : L
         · rcases matching_prefix pre 0 with ⟨k, hk, h⟩ | ⟨_, h⟩ | ⟨_, d', h⟩
           · have e1 := h (i :: w1 ++ PDI :: suf) 0
             have e2 := h (i :: w2 ++ PDI :: suf) 0
-            simp only [List.cons_append, List.append_assoc] at e1 e2
+            simp only [List.cons_append] at e1 e2
             rw [e1, e2]
             simp only [Nat.zero_add]
             rw [List.drop_append_of_le_length (by omega), List.drop_append_of_le_length (by omega)]
@@ -205,13 +205,13 @@ theorem firstStrong_outside (i : BidiClass) (hi : isIsoInit i = true) (w1 w2 : L
             apply this <;> simp <;> omega
           · have e1 := h (i :: w1 ++ PDI :: suf) 0
             have e2 := h (i :: w2 ++ PDI :: suf) 0
-            simp only [List.cons_append, List.append_assoc] at e1 e2
+            simp only [List.cons_append] at e1 e2
             rw [e1, e2]
           · have e1 := h (i :: w1 ++ PDI :: suf) 0
             have e2 := h (i :: w2 ++ PDI :: suf) 0
             rw [matching_skip_pair i hi w1 h1, matching_pos suf] at e1
             rw [matching_skip_pair i hi w2 h2, matching_pos suf] at e2
-            simp only [List.cons_append, List.append_assoc] at e1 e2
+            simp only [List.cons_append] at e1 e2
             rw [e1, e2]
             cases matchingPDI suf d' 0 with
             | none => rfl
@@ -261,7 +261,7 @@ theorem takeWhile_notB_of_not_mem (a b : List BidiClass) (h : B ∉ a) :
   | cons c a ih =>
     have hc : c ≠ B := by intro e; subst e; simp at h
     have : B ∉ a := by intro e; exact h (by simp [e])
-    simp [List.takeWhile_cons, ih this, hc]
+    simp [ih this, hc]
 
 theorem take_pair (pre w suf : List BidiClass) (i : BidiClass) (k n : Nat) (hn : n = k + (pre.length + w.length + 2)) :
     (pre ++ i :: w ++ PDI :: suf).take n = pre ++ i :: w ++ PDI :: suf.take k := by
